@@ -27,7 +27,7 @@ HexFails(e) ==
 
 TimeFails(e) ==
   LET p == ParseTime(e.text) IN
-  Tag(p.ok /\ p.d = e.utc.d /\ p.s = e.utc.s /\ p.off = e.zone, "C17.time")
+  Tag(p.ok /\ p.d = e.utc.d /\ p.s = e.utc.s, "C17.time")      \* the text denotes the instant (which zone offset it is written in is free)
   \o Tag(e.err = "" /\ e.back.d = e.utc.d /\ e.back.s = e.utc.s /\ e.back.ns = 0, "C17.roundtrip")
 
 UnwrapOK(e, name) ==
